@@ -1,9 +1,17 @@
 #!/bin/sh
-# run every claimed check's quick (or $1=thorough) command, sequentially; summary at the end
+# run checks' quick (or $1=thorough) command, 4 at a time; summary at the end.
+# usage: run_all.sh [quick|thorough] [Cxx ...]   (default: every claimed check)
 cd /verif
-tier=${1:-quick}
-for p in $(/venv/bin/python -c "import json; print(' '.join(c['property_id'] for c in json.load(open('MANIFEST.json'))['checks']))"); do
-  s=$(date +%s)
-  ./check $p $tier > /tmp/runall-$p.log 2>&1; c=$?
-  echo "$p exit=$c $(( $(date +%s) - s ))s $(grep -c '^VIOLATION' /tmp/runall-$p.log) violations $(grep -c '^KNOWN-FINDING' /tmp/runall-$p.log) known"
+tier=${1:-quick}; [ $# -gt 0 ] && shift
+props=${*:-$(/venv/bin/python -c "import json; print(' '.join(c['property_id'] for c in json.load(open('MANIFEST.json'))['checks']))")}
+mkdir -p /var/tmp/giverif-runall
+one() {
+  p=$1; s=$(date +%s)
+  ./check $p $tier > /var/tmp/giverif-runall/$p.log 2>&1; c=$?
+  echo "$p exit=$c $(( $(date +%s) - s ))s $(grep -c '^VIOLATION' /var/tmp/giverif-runall/$p.log) violations $(grep -c '^KNOWN-FINDING' /var/tmp/giverif-runall/$p.log) known"
+}
+for p in $props; do
+  one $p &
+  while [ $(jobs -r | wc -l) -ge 4 ]; do sleep 1; done
 done
+wait
